@@ -121,23 +121,15 @@ theorem constant_evolution_value (v t : K) : (Evo.const v).eval t = some v := rf
 
 /-! ## The time loop of `GenericSolver::execute` -/
 
-theorem initState_invH {ε : K} {o : Opts K} {ti te : K} (hm : 1 ≤ o.mSub) :
-    InvH o ti te (initState (fieldConsts ε) ti te) 1 := by
-  refine ⟨⟨le_refl _, ?_⟩, ?_, ?_⟩
-  · simp [initState]
-  · simp [initState]
-  · show Int.ofNat 0 < o.mSub
-    have : Int.ofNat 0 = 0 := rfl
-    omega
-
 /-- Sub-stepping by halving (`dynamic_time_step_scaling = false`): for every script of oracle
 answers, `execute` returns normally only with `t = te` exactly (exact arithmetic). Hypotheses:
 `ti < te` (enforced by `@Times`), `1 ≤ mSubSteps` (enforced by the setter; default 10) and
-`100·ε·2^mSubSteps ≤ 1` (the smallest reachable time step is not below the end tolerance
-`t_eps = 100·ε·(te - ti)`; with `ε = 2^-52` this allows `mSubSteps ≤ 45`). -/
+`t_eps·2^mSubSteps ≤ te - ti` with `t_eps = 100·ε·max(|ti|, |te|, te - ti)` the tolerance of the end test
+(the smallest reachable time step is not below the end tolerance, i.e. it is resolvable at the
+magnitude of the times; with `ε = 2^-52`, `mSubSteps = 10` this is `te - ti ≥ 2.3e-11·max(|ti|, |te|)`). -/
 theorem time_loop_halving_ends_at_te {ε : K} {o : Opts K} {ti te : K} (script : List (Answer K))
     (hdyn : o.dyn = false) (hε : 0 < ε) (hlt : ti < te) (hm : 1 ≤ o.mSub)
-    (hbound : 100 * ε * 2 ^ o.mSub.toNat ≤ 1) {sf : LoopState K}
+    (hbound : tEpsOf (fieldConsts ε) ti te * 2 ^ o.mSub.toNat ≤ te - ti) {sf : LoopState K}
     (h : execute (fieldConsts ε) o ti te script = .ended sf) : sf.t = te := by
   unfold execute at h
   dsimp only at h
@@ -150,7 +142,7 @@ made, whatever the oracle answers — with a script at least that long `execute`
 answers: it returns at `te` (previous theorem) or throws. -/
 theorem time_loop_halving_terminates {ε : K} {o : Opts K} {ti te : K} (script : List (Answer K))
     (hdyn : o.dyn = false) (hε : 0 < ε) (hlt : ti < te) (hm : 1 ≤ o.mSub)
-    (hbound : 100 * ε * 2 ^ o.mSub.toNat ≤ 1)
+    (hbound : tEpsOf (fieldConsts ε) ti te * 2 ^ o.mSub.toNat ≤ te - ti)
     (hlen : 2 ^ o.mSub.toNat + o.mSub.toNat ≤ script.length) (sf : LoopState K) :
     execute (fieldConsts ε) o ti te script ≠ .exhausted sf := by
   unfold execute
@@ -164,13 +156,13 @@ theorem time_loop_halving_terminates {ε : K} {o : Opts K} {ti te : K} (script :
 
 /-- Dynamic time step scaling: for every script of oracle answers (any scaling factors, any
 options), a normal return happens only with `t ≤ te` and either `t = te` exactly, or `te - t` below the
-solver's own end tolerance `t_eps = 100·ε·(te - ti)` and not below the minimal time step. Only
+solver's own end tolerance `t_eps = 100·ε·max(|ti|, |te|, te - ti)` and not below the minimal time step. Only
 hypothesis: `mSubSteps ≠ 0` (enforced by the setter). -/
 theorem time_loop_dynamic_ends_at_te {ε : K} {o : Opts K} {ti te : K} (script : List (Answer K))
     (hdyn : o.dyn = true) (hm : o.mSub ≠ 0) {sf : LoopState K}
     (h : execute (fieldConsts ε) o ti te script = .ended sf) :
     sf.t ≤ te ∧ (sf.t = te ∨
-      (te - sf.t < (te - ti) * 100 * ε ∧ max o.minTs 0 ≤ te - sf.t)) := by
+      (te - sf.t < tEpsOf (fieldConsts ε) ti te ∧ max o.minTs 0 ≤ te - sf.t)) := by
   unfold execute at h
   dsimp only at h
   split_ifs at h with hneg
@@ -183,7 +175,7 @@ theorem time_loop_dynamic_ends_at_te {ε : K} {o : Opts K} {ti te : K} (script :
 /-- ... hence exactly at `te` as soon as a minimal time step not smaller than the end tolerance is
 given (`@MinimalTimeStep`). -/
 theorem time_loop_dynamic_ends_exactly {ε : K} {o : Opts K} {ti te : K} (script : List (Answer K))
-    (hdyn : o.dyn = true) (hm : o.mSub ≠ 0) (hmin : (te - ti) * 100 * ε ≤ o.minTs) {sf : LoopState K}
+    (hdyn : o.dyn = true) (hm : o.mSub ≠ 0) (hmin : tEpsOf (fieldConsts ε) ti te ≤ o.minTs) {sf : LoopState K}
     (h : execute (fieldConsts ε) o ti te script = .ended sf) : sf.t = te := by
   rcases (time_loop_dynamic_ends_at_te script hdyn hm h).2 with h | ⟨h1, h2⟩
   · exact h
@@ -240,10 +232,12 @@ example : interpolate (build [((1 : ℚ), 3), (0, 1), (2, 2), (1, 7)]) 1 = some 
   refine ⟨?_, ?_, ?_, ?_⟩ <;> decide +kernel
 
 /-- the hypotheses of `time_loop_halving_ends_at_te` hold for the default options (`mSubSteps = 10`)
-and `ε = 2^-52`; one rejected attempt then two accepted ones end at `te = 1`. -/
-example : (0 : ℚ) < 1 / 2 ^ 52 ∧ (100 : ℚ) * (1 / 2 ^ 52) * 2 ^ (10 : Int).toNat ≤ 1 := by
-  rw [show (10 : Int).toNat = 10 from rfl]
-  constructor <;> norm_num
+and `ε = 2^-52` on the step 4.5 -> 4.51; one rejected attempt then two accepted ones end at `te = 1`. -/
+example : (0 : ℚ) < 1 / 2 ^ 52 ∧
+    tEpsOf (fieldConsts (1 / 2 ^ 52 : ℚ)) (9 / 2) (451 / 100) * 2 ^ (10 : Int).toNat ≤ 451 / 100 - 9 / 2 := by
+  constructor
+  · norm_num
+  · decide +kernel
 
 example :
     (execute (fieldConsts (1 / 2 ^ 52 : ℚ))
